@@ -302,6 +302,14 @@ def make_rrule(interp, args, kwargs):
         d = interp.unwrap_opt_arg(d, "rrule(bymonthday=None)")
     if interp.branch(Not(And(w >= 0, w <= 6, d >= 1, d <= 31))):
         raise PyRaise("ValueError", "rrule: weekday/monthday out of range")
+    if all(isinstance(x, int) for x in (w, d) + tuple(ts.tup())):
+        # concrete mode (cross-check): the contract's unique solution, found by stepping through the calendar
+        y0, m0, d0 = ts.year, ts.month, ts.day
+        for _ in range(RRULE_MAX_GAP + 1):
+            if d0 == d and cal.weekday(cal.ordinal(y0, m0, d0)) == w:
+                return RRuleResult(DT(y0, m0, d0, ts.hour, ts.minute, ts.second, 0))
+            y0, m0, d0 = cal.next_day(y0, m0, d0)
+        raise PyRaise("IndexError", "rrule: no occurrence within the trusted bound")
     y = interp.fresh_int("rr.y")
     m = interp.fresh_int("rr.m")
     o0 = ts.ordinal()
